@@ -531,9 +531,13 @@ def isCreg : Stmt → Bool
   | .creg _ _ => true
   | _ => false
 
-/-- `CircuitDAG.from_openqasm` on a structured program -/
+/-- `string.whitespace` -/
+def isWs (c : Char) : Bool := c = ' ' || c = '\t' || c = '\n' || c = '\r' || c = '\x0b' || c = '\x0c'
+
+/-- `CircuitDAG.from_openqasm` on a structured program (`p.header` is the text up to and including the first ';':
+    all whitespace is removed from it before it is compared) -/
 def fromOpenqasm (p : Program) : Except Err Circuit :=
-  if p.header ≠ "OPENQASM 2.0;".toList then .error .assertion else
+  if p.header.filter (fun c => !isWs c) ≠ "OPENQASM2.0;".toList then .error .assertion else
   let cmds := p.cmds
   let c : Circuit := { np := cmds.countP (isQregOf .p), ne := cmds.countP (isQregOf .e), nc := cmds.countP isCreg, ops := [] }
   parseCmds c 0 cmds
